@@ -24,18 +24,29 @@ fn corpus() -> Vec<(&'static str, Vec<HOp>)> {
             HOp::Delete { id: 0 },
             HOp::Put { kind: 0, len: 150, seed: 4 },
         ]),
-        ("wal-wrap", vec![
-            HOp::Put { kind: 1, len: 20_000, seed: 11 },
-            HOp::Put { kind: 1, len: 20_000, seed: 12 },
-            HOp::Put { kind: 1, len: 20_000, seed: 13 },
-            HOp::Put { kind: 1, len: 21_000, seed: 14 },
+        // 2000-byte binary puts are ~5.5 KB log records: the 9th put reaches 75 % occupancy and commits
+        // by itself (write head 50.6 K, nothing pending), puts 10-11 bring the head to 61.7 K; the explicit
+        // commit leaves nothing pending, so the 12th put does not fit behind the head and WRAPS to offset 0
+        ("wal-wrap", {
+            let mut v: Vec<HOp> = (0..11).map(|i| HOp::Put { kind: 1, len: 2000, seed: 100 + i }).collect();
+            v.push(HOp::Commit);
+            v.push(HOp::Put { kind: 1, len: 2000, seed: 120 });
+            v.push(HOp::Put { kind: 0, len: 100, seed: 121 });
+            v
+        }),
+        // same start, but without the commit: the 12th put finds the log full with records pending and
+        // GROWS the embedded log in place (grow_wal_region / shift_data_for_wal_growth)
+        ("wal-growth", {
+            let mut v: Vec<HOp> = (0..12).map(|i| HOp::Put { kind: 1, len: 2000, seed: 200 + i }).collect();
+            v.push(HOp::Put { kind: 0, len: 100, seed: 221 });
+            v.push(HOp::Commit);
+            v
+        }),
+        // a document above the chunking threshold: one log record for the document + one per chunk
+        ("chunked-put", vec![
+            HOp::Put { kind: 0, len: 200, seed: 61 },
             HOp::Commit,
-        ]),
-        ("wal-growth", vec![
-            HOp::Put { kind: 0, len: 300, seed: 21 },
-            HOp::Commit,
-            HOp::Put { kind: 1, len: 70_000, seed: 22 },
-            HOp::Commit,
+            HOp::Put { kind: 0, len: 6000, seed: 62 },
         ]),
         ("update-and-reopen", vec![
             HOp::Put { kind: 0, len: 120, seed: 31 },
@@ -63,6 +74,16 @@ fn corpus() -> Vec<(&'static str, Vec<HOp>)> {
     ]
 }
 
+/// does this put carry the sentinel in the record's write (repaired `write_record`)?
+fn fixed_put(ops: &[Sys]) -> bool {
+    let ws: Vec<&Sys> = ops.iter().filter(|s| matches!(s, SysT::Write { .. })).collect();
+    match (ws.first(), ws.get(1)) {
+        (Some(SysT::Write { off: o1, data: d1, .. }), Some(SysT::Write { off: o2, data: d2, .. })) =>
+            d2.iter().all(|b| *b == 0) && *o2 + d2.len() as u64 == *o1 + d1.len() as u64 && *o2 > *o1,
+        _ => false,
+    }
+}
+
 fn main() {
     if child_main() {
         return;
@@ -77,7 +98,7 @@ fn main() {
             o.auto_tag = false; o.extract_dates = false; o.extract_triplets = false;
             let r = m.put_bytes_with_options(&payload(1, len, 100 + i), o);
             let st = memvid_core::verif_hooks::verif_state(&m);
-            println!("put {i}: {:?} wh={} pend={} walsize={} frames={}", r.is_ok(), st.wal_write_head, st.wal_pending_bytes, st.hdr_wal_size, m.frame_count());
+            println!("put {i}: {:?} wh={} pend={} walsize={} frames={}", r.is_ok(), st.hdr_wal_checkpoint_pos + st.wal_pending_bytes, st.wal_pending_bytes, st.hdr_wal_size, m.frame_count());
         }
         drop(m);
         let _ = std::fs::remove_dir_all(&d);
@@ -88,6 +109,7 @@ fn main() {
     let mut sum = Summary::new("C02", &args, "one evaluation = one process-crash point (prefix of the recorded syscall stream) of one history: surviving m.mv2 reopened by the real Memvid::open and judged against the acknowledged-operations reference; distinct_nontrivial = distinct surviving images");
     let known: Vec<String> = args.extra.get("known").map(|s| s.split(',').map(|x| x.to_string()).collect()).unwrap_or_default();
     let scratch = scratch_dir("c02");
+    let mut drv: Option<Driver> = if args.driver.as_os_str() == "none" { None } else { Some(Driver::spawn(&args.driver).expect("driver")) };
     let verbose = args.extra.contains_key("verbose");
     let only = args.extra.get("only").cloned();
 
@@ -125,6 +147,57 @@ fn main() {
             }
         }
         let ev = eval_process_crashes(&exe, &scratch, history, &rec, false);
+        // ---- tie #2: the model's `recover` on the symbolic twin of every distinct image
+        let preds: Option<Vec<String>> = drv.as_mut().map(|d| {
+            let mut ask = |q: &str| d.ask(q);
+            model_predictions(&mut ask, &ev)
+        });
+        let mut model_agrees: Vec<bool> = vec![true; ev.images.len()];
+        if let Some(preds) = &preds {
+            for (i, ans) in preds.iter().enumerate() {
+                let m = model_line(ans);
+                let r = obs_model_line(&ev.obs[i].first, &ev.labeller);
+                if m != r {
+                    model_agrees[i] = false;
+                    let k = ev.points.iter().find(|p| p.image == i).map(|p| p.k).unwrap_or(0);
+                    if verbose { println!("  DISAGREE image {i} (first at k={k}): model `{ans}` impl `{r}` ({})", ev.obs[i].first.err); }
+                    sum.disagreement("recover(model image) differs from the real Memvid::open on the crash image",
+                        json!({"history": history, "name": name, "crash_prefix": k}), ans, &r);
+                }
+            }
+        }
+        // ---- tie #1: protocol shape of the plain steps
+        if let Some(d) = drv.as_mut() {
+            let mut sim = rec.initial.clone();
+            let mut pos = 0;
+            for sp in &spans {
+                while pos < sp.begin { sim.apply(&rec.ops[pos]); pos += 1; }
+                let c: Vec<String> = canon_step(&rec.ops, sp.begin, sp.end, &sim, FILE_NAME).iter()
+                    .map(|t| { let w: Vec<&str> = t.split('.').collect(); if w[0] == "rename" { "rename".to_string() } else if t == "fsync.d" { "fsyncdir".to_string() } else { format!("{}.{}", w[0], w[1]) } }).collect();
+                let staged_start = c.iter().position(|t| t == "create.t");
+                let (expect, what) = match (sp.name.as_str(), staged_start) {
+                    ("put" | "update" | "delete", None) if c.len() == 3 => (d.ask(if fixed_put(&rec.ops[sp.begin..sp.end]) { "emit putfixed" } else { "emit put" }), "put"),
+                    ("commit" | "drop" | "reopen", Some(cs)) if cs == 2 && c.iter().filter(|t| *t == "rename").count() == 1 => {
+                        // inner = everything between the copy's fsync and the last two fsyncs before the rename
+                        let rn = c.iter().position(|t| t == "rename").unwrap();
+                        let inner = &c[6..rn - 2];
+                        if inner.iter().any(|t| !t.ends_with(".t")) { (String::from("inner-touches-original"), "staged") }
+                        else {
+                            let kinds: Vec<&str> = inner.iter().map(|t| if t.starts_with("pwrite") { "w" } else if t.starts_with("ftruncate") { "t" } else { "f" }).collect();
+                            (d.ask(&format!("emit staged {}", if kinds.is_empty() { "-".to_string() } else { kinds.join(",") })), "staged")
+                        }
+                    }
+                    _ => (String::new(), ""),
+                };
+                if !what.is_empty() {
+                    sum.branch(&format!("tie1-{what}"));
+                    if expect != c.join(" ") {
+                        sum.disagreement("recorded syscall stream of the step differs from the protocol the model emits",
+                            json!({"history": history, "name": name, "step": sp.index, "step_name": sp.name}), &expect, &c.join(" "));
+                    }
+                }
+            }
+        }
         let t_all = t0.elapsed();
         let mut bad = 0;
         let mut seen_sig: std::collections::BTreeSet<String> = Default::default();
@@ -139,7 +212,9 @@ fn main() {
                                   "last_syscall": rec.ops[p.k - 1].brief(), "observation": o.logical()});
                 let first = seen_sig.insert(p.verdict.signature.clone());
                 if verbose && first { println!("  FAIL k={} {} :: {} :: {}", p.k, rec.ops[p.k - 1].brief(), p.verdict.signature, p.verdict.what); }
-                if known.contains(&p.verdict.signature) {
+                // known only when the model predicts this very outcome and the class is listed
+                let predicted = preds.is_none() || model_agrees[p.image];
+                if known.contains(&p.verdict.signature) && predicted {
                     sum.known_finding(&p.verdict.signature, &p.verdict.what, case);
                 } else if first {
                     sum.oracle_violation(&p.verdict.signature, &p.verdict.what, case);
@@ -151,6 +226,7 @@ fn main() {
         println!("history {name}: ops={} crash_points={} distinct_images={} failing_points={} record={:.1}s total={:.1}s",
             rec.ops.len(), ev.points.len(), ev.images.len(), bad, t_rec.as_secs_f64(), t_all.as_secs_f64());
     }
+    if let Some(d) = &drv { sum.model_requests = d.requests; }
     let _ = std::fs::remove_dir_all(&scratch);
     sum.finish(&args);
 }
